@@ -21,7 +21,7 @@ let () =
   run_file Sys.argv.(1) (fun _ sx ->
     match sx with
     | [L (A "cal" :: m :: comps); obs] ->
-      let c = { has_method = bool_ m; comps = List.map comp_of comps } in
+      let c = { has_method = (match m with A "0" -> false | _ -> true); comps = List.map comp_of comps } in
       let o = match obs with
         | L [A "ok"; ty; uid] -> { o_result = Some (str ty, str uid); o_empty_on_err = true }
         | L [A "err"; e] -> { o_result = None; o_empty_on_err = bool_ e }
